@@ -33,9 +33,6 @@ func malformedAST(sexpr string) string {
 	if strings.Contains(sexpr, "(ASTEmpty") {
 		return "the compiled AST contains an ASTEmpty node (a parse error was swallowed)"
 	}
-	if strings.Contains(sexpr, "#<") {
-		return "the compiled AST contains a node whose value has an unexpected Go type"
-	}
 	return ""
 }
 
